@@ -522,12 +522,19 @@ def c20_cases(run):
     # the close itself is the one that does not fit
     for npile in (31, 32, 33, 36):
         hists.append(([f"O1={_hex(small)}", f"O0={_hex(BIG_DOC)}"] + ["C1=R:0:0:0:0:" + _hex(" ")] * npile + ["X1", "P1", "H1"], True))
+    # a slow client: a response larger than the stdout pipe blocks the responder while exactly as many messages as its
+    # inbox holds (31 / 32 / 33 / 64) pile up behind it; when the client reads again, all of them must come out
+    oneline = "".join("proc p%d(){}" % i for i in range(5000))
+    n_flush0 = len(hists)
+    for npile in (31, 32, 33, 64):
+        hists.append(([f"O0={_hex(oneline)}", "M0", f"O1={_hex(small)}"] + ["C1=R:0:0:0:0:" + _hex(" ")] * (npile - 2) + ["H1"], True))
+    n_flush1 = len(hists)
     # several lives of one URI: the versions start again at 1 after the re-open (and after a second didOpen without a close)
     hists.append(([f"O1={_hex(small)}"] + ["C1=R:0:0:0:0:" + _hex("// a\n")] * 5 + ["P1", "X1", f"O1={_hex(C20_TEXTS[1])}", "C1=R:0:0:0:0:" + _hex("// b\n"), "P1", "H1",
                    f"O1={_hex(C20_TEXTS[2])}", "C1=R:0:0:0:0:" + _hex("// c\n"), "C1=R:0:0:0:0:" + _hex("// d\n"), "P1", "F1"], True))
     # ... and a document OPENED behind the pile is there for the request that follows it
     hists.append(([f"O1={_hex(small)}", f"O0={_hex(BIG_DOC)}"] + ["C1=R:0:0:0:0:" + _hex(" ")] * 150 + ["O2=" + _hex(C20_TEXTS[2]), "P2", "H2", "C2=R:0:0:0:0:" + _hex("// x\n"), "P2"], True))
-    slow = [i % 3 == 1 or n_hist <= i < n_small for i in range(len(hists))]
+    slow = [i % 3 == 1 or n_hist <= i < n_small or n_flush0 <= i < n_flush1 for i in range(len(hists))]
     # sequential in-process reference
     seq_in = "\n".join(f"SEQ {1 if d else 0} " + " ".join(t) for t, d in hists) + "\n"
     p = subprocess.run([HARNESS, "run"], input=seq_in, stdout=subprocess.PIPE, stderr=subprocess.DEVNULL, text=True, env=ENV, timeout=3000)
@@ -536,10 +543,15 @@ def c20_cases(run):
 
     def one(job):
         (toks, d), sl = job
-        data = b"".join(lc.frame(m) for m in c20_messages(toks, d))
-        # default multi-threaded runtime (all cores); slow = the client does not read until it has written
-        # everything (or 1.5 s have passed): the stdout pipe, the responder channel and the broker fill up
-        return lc.run_session([data], timeout=120, workers=None, read_after=1.5 if sl else None)
+        msgs = c20_messages(toks, d)
+        # everything but `shutdown` / `exit` in one write; they follow only when every request has been answered (or
+        # after two minutes): an answer that needs further input to come out has been held back
+        main = b"".join(lc.frame(m) for m in msgs[:-2])
+        end = b"".join(lc.frame(m) for m in msgs[-2:])
+        want = [100000] + [k for k, t in enumerate(toks) if t[0] in "PFUMH"]
+        # default multi-threaded runtime (all cores); slow = the client does not read for the first 1.5 s: the stdout
+        # pipe, the responder channel and the broker fill up
+        return lc.run_session_wait(main, end, want, wait=120.0, timeout=120, workers=None, read_after=1.5 if sl else None)
 
     with ThreadPoolExecutor(max_workers=4) as ex:
         results = list(ex.map(one, list(zip(hists, slow))))
@@ -553,6 +565,10 @@ def c20_cases(run):
         events = json.loads(ref)
         if r["timed_out"] or r["problems"] or r["rc"] != 0:
             violations.append(("binary", "SPECNETTEXT " + line, f"rc={r['rc']} timed_out={r['timed_out']} problems={r['problems']} stderr={r['stderr'][-300:]}", "", "session under load failed (deadlock/crash)"))
+            continue
+        if r.get("missing_before_end"):
+            violations.append(("binary", "SPECNETTEXT " + line, f"not answered before `shutdown` was sent: ids {r['missing_before_end'][:20]}", "every request answered without further input",
+                               "responses held back until the next message arrives"))
             continue
         got = []
         ids = []
